@@ -284,6 +284,15 @@ def gen_form(rng, fid, force=None):
             msg_src = f"\"w {{:>5}}|{{:08.3}}\", ctr.tick({ticks}, (v.u as u8)), ctr.tick({ticks + 1}, v.f)"
             msg_expect = "format!(\"w {:>5}|{:08.3}\", (v.u as u8), v.f)"
             ticks += 2
+    # an ordinary field that happens to be called `message`, not in first position (only without a
+    # format-string message): it is presented where it was declared
+    if f.kind == "Event" and msg_src is None and fields_src and not wide and not force and rng.random() < 0.2 and not empties and len(expect) == len(fields_src) == len(declared) and not any(fs.startswith("message") for fs in fields_src):
+        pos = rng.randint(1, len(fields_src))
+        k = rng.choice([p for p in PLAIN if p[0] in ("u64", "str", "bool", "i64")])
+        fields_src.insert(pos, f"message = ctr.tick({ticks}, {k[1]})")
+        expect.insert(pos, (["message"], k[2]))
+        declared.insert(pos, ["message"])
+        ticks += 1
     if f.kind == "Event" and msg_src is not None:
         declared = [["message"]] + declared
         expect = [(["message"], f"Seen::Debug(msg3({msg_expect}))")] + expect
